@@ -19,7 +19,7 @@ RUN_WALL_WATCHDOG_S = 300.0
 TIERS = {
     # r_max: cap on clock readings of the un-interrupted run (deterministic step budget)
     # sweep_max: up to this many readings every cut is executed; above, a structured sample
-    "quick":    {"runs": 2600, "chunk": 6, "wall_cap_s": 75, "r_max": 1500, "sweep_max": 300, "size": 0,
+    "quick":    {"runs": 12000, "chunk": 10, "wall_cap_s": 75, "r_max": 1500, "sweep_max": 300, "size": 0,
                  "det_sample_min": 8, "det_sample_frac": 0.005, "max_reports": 3, "shrink_candidates": 250},
     "thorough": {"runs": 40000, "chunk": 8, "wall_cap_s": 1500, "r_max": 5000, "sweep_max": 900, "size": 1,
                  "det_sample_min": 32, "det_sample_frac": 0.003, "max_reports": 4, "shrink_candidates": 600,
@@ -514,6 +514,7 @@ def _execute_generator(plan, res, tr):
     items, vmap = _items_for_oracle(plan)
     k = plan["numbins"]
     yielded, snaps, diffs = [], [], []
+    truncated = False
     try:
         g = _gen_objects(plan)
         for y in g:
@@ -529,8 +530,9 @@ def _execute_generator(plan, res, tr):
                 if diffs and diffs[-1] is not None and not d < diffs[-1]:
                     res.violate("gen-not-strict", j=len(yielded), previous=canon(diffs[-1]), this=canon(d))
                 diffs.append(d)
-            if len(yielded) > 10000:
-                res.violate("gen-not-strict", why="more than 10000 yields")
+            if len(yielded) >= 400:
+                truncated = True          # consumer walks away; strictness of every consecutive pair so far was judged
+                res.probe("generator_consumer_stopped_after_400_yields")
                 break
     except Exception as e:
         res.violate("crash", exception=type(e).__name__, message=str(e)[:200], after_yields=len(yielded))
@@ -540,7 +542,7 @@ def _execute_generator(plan, res, tr):
     Y = len(yielded)
     opt = _optimum(plan)
     tr.add("optimum", value=canon(opt))
-    if Y == 0 or diffs[-1] is None or diffs[-1] != opt:
+    if not truncated and (Y == 0 or diffs[-1] is None or diffs[-1] != opt):
         res.violate("gen-last-not-optimal", yields=Y, last=canon(diffs[-1]) if Y else None, optimum=canon(opt))
     # every yielded object still is what it was when yielded
     for j, (y, s) in enumerate(zip(yielded, snaps), 1):
@@ -551,7 +553,8 @@ def _execute_generator(plan, res, tr):
     if Y >= 3:
         res.probe("generator_ge3_yields")
     # abandon after the j-th yield
-    for j in range(1, Y + 1):
+    points = sorted(set(list(range(1, min(Y, 8) + 1)) + [Y - 1, Y] + core.rng(core.H("c11-abandon", plan), "abandon").sample(range(1, Y + 1), min(Y, 6)))) if Y else []
+    for j in [p for p in points if 1 <= p <= Y]:
         try:
             g = _gen_objects(plan)
             got = []
